@@ -21,7 +21,7 @@ META = dict(
              "witnesses (concrete re-execution), which is not a solver claim", "calendar validity of field values "
              "(month lengths): the decoded fields are compared, the datetime constructor's own validation is CPython's"],
     trusted_base=["symx engine", "contract model of datetime.replace/astimezone/timestamp/fromtimestamp/fromisoformat/"
-                  "strftime, timedelta, numpy.datetime64(.,'s').astype (props/c17.py)"],
+                  "strftime/utcoffset/+-timedelta, timedelta(fields, normalised days/seconds/microseconds, total_seconds), numpy.datetime64(.,'s').astype (props/c17.py)"],
     assumptions=["packed time: hh in 0..23, mm in 0..59, ss in 0..59; packed date: yyyy in 1970..2100 (or yy 0..99), "
                  "mm 1..12, dd 1..31"],
 )
@@ -179,6 +179,44 @@ class Local:
 LOCAL = Local()
 
 
+class MTD:
+    """contract model of datetime.timedelta for the glue code: an exact signed duration in microseconds. `.days` /
+    `.seconds` / `.microseconds` are the NORMALISED fields CPython stores (0 <= seconds < 86400, 0 <= us < 1e6, the
+    sign carried by days), `total_seconds()` the signed total"""
+
+    def __init__(self, days=0, seconds=0, microseconds=0, milliseconds=0, minutes=0, hours=0, weeks=0, _us=None):
+        self.us = _us if _us is not None else (
+            (((weeks * 7 + days) * 24 + hours) * 60 + minutes) * 60 + seconds) * US + milliseconds * 1000 + microseconds
+
+    @property
+    def days(self):
+        return self.us // (86400 * US)
+
+    @property
+    def seconds(self):
+        return (self.us % (86400 * US)) // US
+
+    @property
+    def microseconds(self):
+        return self.us % US
+
+    def total_seconds(self):
+        return TS(self.us)
+
+    def __neg__(self):
+        return MTD(_us=-self.us)
+
+    def __add__(self, o):
+        if isinstance(o, MTD):
+            return MTD(_us=self.us + o.us)
+        return NotImplemented
+
+    def __sub__(self, o):
+        if isinstance(o, MTD):
+            return MTD(_us=self.us - o.us)
+        return NotImplemented
+
+
 class MDT:
     """contract model of an instant as datetime sees it: wall clock (microseconds since the epoch *in its own zone*)
     plus optional offset (minutes). utc instant = wall - offset*60e6"""
@@ -189,6 +227,22 @@ class MDT:
 
     def replace(self, tzinfo=None):
         return MDT(self.wall, tzinfo)
+
+    def utcoffset(self):
+        off = _off(self.tzinfo)
+        return None if off is None else MTD(minutes=off)
+
+    def __add__(self, td):
+        if isinstance(td, MTD):
+            return MDT(self.wall + td.us, self.tzinfo)     # wall-clock arithmetic, zone kept (CPython semantics)
+        return NotImplemented
+
+    __radd__ = __add__
+
+    def __sub__(self, o):
+        if isinstance(o, MTD):
+            return MDT(self.wall - o.us, self.tzinfo)
+        return NotImplemented
 
     def utc_us(self, naive_as_utc=False):
         off = _off(self.tzinfo)
@@ -340,6 +394,7 @@ class _NPModel:
 def _install(ctx):
     import ocean_science_utilities.tools.time as T
     ctx.patch(T, "datetime", MDT)
+    ctx.patch(T, "timedelta", MTD)
     ctx.patch(T, "np", _NPModel())
     ctx.patch(T, "int", _model_int)   # module-level name shadows the builtin inside tools.time only
     return T
